@@ -112,6 +112,13 @@ type eagrNode struct {
 	// ghost state for C02(i): every vote this node's account released through the loopback, by
 	// (round, period, step). Survives crash-restarts (it is the observer's memory, not the node's).
 	released map[eagrRPS]proposalValue
+	// lostState: a restart found the crash state overwritten by the empty state that the replay of a
+	// restored attest action persists (Service.persistRouter/Status/Actions are not initialised on
+	// the restore path) and therefore started a fresh player for a round it had already voted in.
+	lostState bool
+
+	relClock bool  // virtual-time mode: the key uses phase instead of zero
+	phase    int64 // now - zero at the time the key was computed (virtual-time mode)
 
 	keyOK  bool // cached canonical key of this node (nodes are immutable once stored in a state)
 	keySum [32]byte
@@ -167,6 +174,8 @@ type eagrSys struct {
 	sent    map[string]bool // forward suppression: msg id + dst ever enqueued (only if cfg.forward)
 	values  map[proposalValue]bool
 	barrier int // lock-step explorer: flight entries with seq <= barrier are eligible in this sub-phase
+	syncPeriod    int // C05: highest period of any node when the last deviation was taken (ghost)
+	lastDevPeriod int
 	devs    eagrDevs // lock-step explorer: deviations used so far, by kind
 	subStart bool    // lock-step explorer: no message of the current delivery sub-phase was handled yet
 
@@ -260,7 +269,7 @@ func (n *eagrNode) startFresh(s *eagrSys, out *eagrOut) {
 // clone returns an independent copy of the node (encode-independent deep copy of the state machine).
 func (n *eagrNode) clone() *eagrNode {
 	c := &eagrNode{id: n.id, led: n.led.clone(), disk: n.disk, zero: n.zero, passive: n.passive,
-		persistFresh: n.persistFresh, persistA: n.persistA, crashes: n.crashes}
+		persistFresh: n.persistFresh, persistA: n.persistA, crashes: n.crashes, lostState: n.lostState}
 	c.p, c.rr = eagrCopyState(&n.p, &n.rr)
 	c.loop = append([]eagrLoopItem(nil), n.loop...)
 	c.ver = append([]cryptoAction(nil), n.ver...)
@@ -279,7 +288,7 @@ func (n *eagrNode) clone() *eagrNode {
 
 // clone copies the system; nodes are shared (copy-on-write: call own(j) before mutating node j).
 func (s *eagrSys) clone() *eagrSys {
-	c := &eagrSys{cfg: s.cfg, now: s.now, seq: s.seq, barrier: s.barrier, devs: s.devs, subStart: s.subStart}
+	c := &eagrSys{cfg: s.cfg, now: s.now, seq: s.seq, barrier: s.barrier, devs: s.devs, subStart: s.subStart, syncPeriod: s.syncPeriod, lastDevPeriod: s.lastDevPeriod}
 	c.nodes = append([]*eagrNode(nil), s.nodes...)
 	c.flight = append([]eagrFlight(nil), s.flight...)
 	if s.sent != nil {
@@ -493,7 +502,11 @@ func (n *eagrNode) loopStep(s *eagrSys, out *eagrOut) {
 			}
 			k := eagrRPS{uv.R.Round, uv.R.Period, uv.R.Step}
 			if old, ok := n.released[k]; ok && old != uv.R.Proposal {
-				out.equivoc = append(out.equivoc, fmt.Sprintf("account a%d (node %d) released a vote for %s at (round %d, period %d, step %d) after having released a vote for %s for the same slot (crash-restarts of this node so far: %d)",
+				cls := "other"
+				if n.lostState {
+					cls = "crash-state-overwritten-by-restart"
+				}
+				out.equivoc = append(out.equivoc, cls+"|"+fmt.Sprintf("account a%d (node %d) released a vote for %s at (round %d, period %d, step %d) after having released a vote for %s for the same slot (crash-restarts of this node so far: %d)",
 					n.id, n.id, eagrPV(uv.R.Proposal), uv.R.Round, uv.R.Period, uv.R.Step, eagrPV(old), n.crashes))
 			}
 			n.released[k] = uv.R.Proposal
@@ -758,6 +771,11 @@ func (n *eagrNode) timeout(s *eagrSys, fast bool, out *eagrOut) {
 	n.settle(s, out)
 }
 
+// timers returns the virtual times at which the node's deadline and fast-recovery deadline expire.
+func (n *eagrNode) timers() (regular, fast int64) {
+	return n.zero + int64(n.p.Deadline.Duration), n.zero + int64(n.p.FastRecoveryDeadline)
+}
+
 // catchup installs the block another node committed for this node's next round and delivers the
 // roundInterruptionEvent demux.next produces when Ledger.Wait fires.
 func (n *eagrNode) catchup(s *eagrSys, e *eagrEntry, out *eagrOut) {
@@ -784,6 +802,8 @@ func (n *eagrNode) restart(s *eagrSys, out *eagrOut) {
 			n.zero = clock.(eagrClock).zero
 			ok = true
 			s.stats.restoresFromDisk++
+		} else if err == nil && p.Round == 0 && len(a) == 0 && len(n.released) > 0 {
+			n.lostState = true
 		}
 	}
 	if !ok {
@@ -901,7 +921,12 @@ func (n *eagrNode) key0(b []byte) []byte {
 		b = append(b, 'P')
 		return n.led.digestKey(b)
 	}
-	b = binary.LittleEndian.AppendUint64(b, uint64(n.zero))
+	if n.relClock {
+		// virtual-time mode: only the clock phase relative to "now" matters (set by eagrSys.key)
+		b = binary.LittleEndian.AppendUint64(b, uint64(n.phase))
+	} else {
+		b = binary.LittleEndian.AppendUint64(b, uint64(n.zero))
+	}
 	b = n.stateBytes(b)
 	b = n.led.digestKey(b)
 	d := crypto.Hash(n.disk)
@@ -912,6 +937,9 @@ func (n *eagrNode) key0(b []byte) []byte {
 	}
 	if n.persistFresh {
 		fl |= 2
+	}
+	if n.lostState {
+		fl |= 4
 	}
 	b = append(b, fl, byte(len(n.loop)), byte(len(n.ver)), byte(n.crashes))
 	for _, it := range n.loop {
@@ -954,7 +982,19 @@ func (n *eagrNode) key0(b []byte) []byte {
 func (s *eagrSys) key() [16]byte {
 	var b []byte
 	for _, n := range s.nodes {
+		if s.cfg.virtualTime {
+			ph := s.now - n.zero
+			if n.passive {
+				ph = 0
+			}
+			if !n.relClock || n.phase != ph {
+				n.relClock, n.phase, n.keyOK = true, ph, false
+			}
+		}
 		b = n.key(b)
+	}
+	if s.cfg.virtualTime {
+		b = append(b, byte(s.syncPeriod), byte(s.lastDevPeriod))
 	}
 	fl := make([]string, 0, len(s.flight))
 	if s.cfg.ordered {
